@@ -23,7 +23,10 @@ RULE = ("state types positive/complex/mixed, nv 1..4 in both tiers (quick: fewer
         "for every state: every subset A of the sites in the encodings list / np.array / tensor (and int for single sites), applied to "
         "two-row batches [s1; s2] for all pairs of basis states (both orders come out of one batch; these define value(s1,s2)), to one batch "
         "of 4^n rows in which every ordered pair of basis states occurs as neighbouring rows, to random batches of 3..6 rows and to "
-        "single-row batches (pairing = cyclic shift by one, direction detected from the output); a case is (state, region, "
+        "single-row batches (pairing = cyclic shift by one, direction detected from the output); additionally every region in the further encodings plain indexing accepts "
+        "(boolean masks, negative / unsorted / repeated indices, tuples, ranges, int32 arrays, numpy scalars, 0-dim tensors, slices) on the "
+        "all-pairs batch, non-contiguous (strided) double sample tensors, one random batch of ~2500 rows per region for n <= 3 and one batch of 20001..26000 rows (odd) per state type; "
+        "a case is (state, region, "
         "encoding); non-trivial := all biases non-zero, 0 < |A| < n or n = 1, and (positive or non-zero phase network)")
 ASSUMPTIONS = ["torch elementwise kernels / advanced indexing implement their documented semantics",
                "states with |effective energy| > 300 are skipped (double overflow), counted as skipped_overflow"]
@@ -71,6 +74,65 @@ def encodings(A, n, rng, all_forms):
     return out
 
 
+def exotic_encodings(A, n, rng):
+    """Further ways of writing the same region that plain torch / numpy indexing `x[:, A]` accepts: boolean masks,
+    negative (from-the-end), unsorted and repeated indices, tuples, ranges, 32-bit index arrays, numpy scalars,
+    0-dim tensors.  What each denotes is decided by numpy indexing on arange(n); it must be the set A."""
+    import torch
+    A = list(A)
+    mask = [i in A for i in range(n)]
+    forms = [("bool tensor", torch.tensor(mask, dtype=torch.bool)), ("bool ndarray", np.array(mask, dtype=bool)), ("bool list", list(mask))]
+    if A:
+        neg = [a - n for a in A]
+        mixed = [a if k % 2 else a - n for k, a in enumerate(A)]
+        shuffled = [A[k] for k in rng.permutation(len(A))] if len(A) > 1 else list(A)
+        forms += [("negative list", neg), ("negative tensor", torch.tensor(neg, dtype=torch.long)), ("mixed-sign ndarray", np.array(mixed, dtype=np.int64)),
+                  ("reversed list", A[::-1]), ("shuffled tensor", torch.tensor(shuffled, dtype=torch.long)), ("repeated list", A + A[::-1]),
+                  ("tuple", tuple(A)), ("int32 ndarray", np.array(A, dtype=np.int32)), ("int32 tensor", torch.tensor(A, dtype=torch.int32))]
+        steps = set(np.diff(A).tolist())
+        if len(steps) <= 1:
+            st = steps.pop() if steps else 1
+            forms.append(("range", range(A[0], A[-1] + 1, st)))
+    else:
+        forms += [("empty tuple", ()), ("empty range", range(0)), ("empty int32 tensor", torch.tensor([], dtype=torch.int32))]
+    if len(A) == 1:
+        a = A[0]
+        forms += [("np.int64 scalar", np.int64(a)), ("np.int32 scalar", np.int32(a)), ("0-dim tensor", torch.tensor(a)),
+                  ("0-dim int32 tensor", torch.tensor(a, dtype=torch.int32)), ("negative int", a - n), ("slice", slice(a, a + 1))]
+    out = []
+    for name, enc in forms:
+        e = enc.numpy() if isinstance(enc, torch.Tensor) else enc
+        denoted = sorted(set(np.atleast_1d(np.arange(n).reshape(1, n)[:, e].ravel()).tolist()))
+        assert denoted == sorted(A), "harness: encoding %s of %r denotes %r" % (name, A, denoted)
+        out.append((name, enc))
+    return out
+
+
+def batch_variants(ctx, space, N, eul, n, first_encoding, very_long=False):
+    """(name, row indices, tensor builder) of the longer batches applied for one (region, encoding)."""
+    import torch
+    rng = ctx.rng
+    take = lambda ridx: space[torch.tensor(ridx, dtype=torch.long)].clone()
+    B = int(rng.integers(3, 7))
+    out = [("all ordered pairs as neighbouring rows", np.array(eul), take),
+           ("random batch", rng.integers(0, N, size=B), take),
+           ("single-row batch", rng.integers(0, N, size=1), take),
+           ("non-contiguous batch (column-major storage)", rng.integers(0, N, size=B + 1), lambda r: take(r).t().contiguous().t()),
+           ("non-contiguous batch (every second row of a larger tensor)", rng.integers(0, N, size=B),
+            lambda r: torch.stack([take(r), 1 - take(r)], 1).reshape(2 * len(r), n)[::2])]
+    if first_encoding and n <= 3:
+        # longer than any plausible internal chunk size, and not a multiple of a round number
+        out.append(("long random batch", rng.integers(0, N, size=int(rng.integers(2300, 2700)) | 1), take))
+    if very_long:
+        # > 20000 rows, odd length: the basis cycled from a random offset, with a random row every 7th position so
+        # that neighbouring rows form many different pairs
+        Bv = 20001 + 2 * int(rng.integers(0, 3000))
+        ridx = (int(rng.integers(0, N)) + np.arange(Bv)) % N
+        ridx[::7] = rng.integers(0, N, size=len(ridx[::7]))
+        out.append(("very long batch", ridx, take))
+    return out
+
+
 def independent_space(ctx, s, n, case):
     """The basis is enumerated here (itertools.product, site 0 most significant), not taken from the code under test."""
     import torch
@@ -105,7 +167,7 @@ def model_long_batch(m, margs, A, rows_np, d):
     return m.call("swap_apply", *margs, A, rows_np)
 
 
-def check_state(ctx, kind, nv, nh, na, params, with_model=True, only_region=None, all_forms=None):
+def check_state(ctx, kind, nv, nh, na, params, with_model=True, only_region=None, all_forms=None, very_long=False):
     import torch
     from qucumber.observables import SWAP
     from qucumber.observables.entanglement import swap
@@ -133,6 +195,9 @@ def check_state(ctx, kind, nv, nh, na, params, with_model=True, only_region=None
     big = space[torch.tensor(eul, dtype=torch.long)].clone()
     pairs2 = [(i, j) for i in range(N) for j in range(i, N)]
     est = {}
+    very_long_used = False
+    if very_long:
+        base.very_long_done(ctx).add(kind)
     if all_forms is None:
         all_forms = ctx.thorough or n <= 2
     subsets = [list(c) for k in range(n + 1) for c in itertools.combinations(range(n), k)]
@@ -153,6 +218,7 @@ def check_state(ctx, kind, nv, nh, na, params, with_model=True, only_region=None
             Vm = np.zeros((N, N))
             for i in range(len(eul)):
                 Vm[eul[i], eul[i - 1]] = mo_big[i]
+        V_ref, d_ref = None, 1
         for enc_name, Aenc in encodings(A, n, ctx.rng, all_forms):
             case = dict(case0, region=A, encoding=enc_name)
             ctx.case({"state": kind, "nv": nv, "region": A, "encoding": enc_name, "am0": params["am"][0][0][0]},
@@ -192,14 +258,13 @@ def check_state(ctx, kind, nv, nh, na, params, with_model=True, only_region=None
             if Vm is not None:
                 ctx.agree("SWAP.apply on two-row batches (all ordered pairs)", V / M, Vm / M, case, scale=1.0)
             # ---- (b) longer batches: every row is paired with a cyclic neighbour (shift by one, either direction)
-            B = int(ctx.rng.integers(3, 7))
-            longs = [("all ordered pairs as neighbouring rows", np.array(eul)),
-                     ("random batch", ctx.rng.integers(0, N, size=B)),
-                     ("single-row batch", ctx.rng.integers(0, N, size=1))]
-            for lname, ridx in longs:
-                rb = space[torch.tensor(ridx, dtype=torch.long)].clone()
+            vl = very_long and V_ref is None and len(A) > 0 and not very_long_used
+            very_long_used = very_long_used or vl
+            for lname, ridx, build_rows in batch_variants(ctx, space, N, eul, n, first_encoding=(V_ref is None), very_long=vl):
+                rb = build_rows(ridx)
                 rb0 = rb.clone()
-                c3 = dict(case, batch=lname, rows=ridx.tolist() if len(ridx) <= 8 else "euler(%d)" % N)
+                ctx.count("batch:" + lname.split(" (")[0])
+                c3 = dict(case, batch=lname, rows=ridx.tolist() if len(ridx) <= 8 else "%d rows" % len(ridx))
                 ok, o3 = ctx.call("SWAP.apply (%s)" % lname, c3, lambda: O.apply(s, rb))
                 if not ok:
                     continue
@@ -215,10 +280,38 @@ def check_state(ctx, kind, nv, nh, na, params, with_model=True, only_region=None
                              "row i with row i+1": [V[ridx[i], ridx[(i + 1) % len(ridx)]] for i in range(min(8, len(ridx)))]})
                 d = shifts[0] if shifts else 1
                 ctx.count("pairing shift %+d" % d if shifts else "pairing shift undetected")
-                if m is not None:
-                    mo = model_long_batch(m, margs, A, rb.numpy(), d)
+                if lname.startswith("all ordered pairs") and shifts:
+                    d_ref = d
+                if m is not None and lname != "very long batch":
+                    mo = model_long_batch(m, margs, A, sp[ridx], d)
                     sc = np.array([M[ridx[i], ridx[(i - d) % len(ridx)]] for i in range(len(ridx))])
                     ctx.agree("SWAP.apply on a longer batch (%s)" % lname, o3 / sc, np.array(mo) / sc, c3, scale=1.0)
+            V_ref = V
+        # ---- (c) the other encodings of the same region that plain indexing accepts: same values, same purity
+        if V_ref is not None:
+            for enc_name, Aenc in exotic_encodings(A, n, ctx.rng):
+                case = dict(case0, region=A, encoding=enc_name, encoded=repr(Aenc)[:80])
+                ctx.case({"state": kind, "nv": nv, "region": A, "encoding": enc_name, "am0": params["am"][0][0][0]},
+                         nontrivial=triv_state and (0 < len(A) < n or n == 1))
+                ctx.count("encoding:" + enc_name)
+                before = big.clone()
+                ok, o4 = ctx.call("SWAP(%s).apply" % enc_name, case, lambda: SWAP(Aenc).apply(s, big))
+                if not ok:
+                    continue
+                ctx.require("SWAP: batch unchanged by apply", bool(torch.equal(big, before)), case)
+                good = isinstance(o4, torch.Tensor) and tuple(o4.shape) == (len(eul),) and not torch.is_complex(o4)
+                ctx.require("SWAP: one real number per row", bool(good), case, {"shape": list(getattr(o4, "shape", []))})
+                if not good:
+                    continue
+                o4 = o4.detach().numpy().astype(float)
+                V4 = np.zeros((N, N))
+                for i in range(len(eul)):
+                    V4[eul[i], eul[(i - d_ref) % len(eul)]] = o4[i]
+                got4 = float(w @ V4 @ w)
+                ctx.require("SWAP: sum p(s1)p(s2)/Z^2 value(s1,s2) == tr(rho_A^2)", abs(got4 - want) <= 1e-8 + 1e-7 * abs(want), case,
+                            {"estimator_mean": got4, "purity": want, "region_denoted_by_numpy_indexing": A})
+                ctx.require("SWAP: every encoding of the region gives the same values", bool(detect_shift(o4, np.array(eul), V_ref, M)), case,
+                            {"got": o4[:6].tolist(), "list encoding": [V_ref[eul[i], eul[(i - d_ref) % len(eul)]] for i in range(min(6, len(eul)))]})
         # ---- swap() itself against the model (exact)
         if m is not None:
             i, j = int(ctx.rng.integers(0, N)), int(ctx.rng.integers(0, N))
@@ -252,7 +345,9 @@ def run(ctx):
                 ctx.torch_seed()
                 nh = int(ctx.rng.integers(1, nv + 2))
                 na = int(ctx.rng.integers(1, nv + 2)) if kind == "mixed" else 0
-                check_state(ctx, kind, nv, nh, na, base.draw(ctx, kind, nv, nh, na))
+                # one batch of > 20000 rows per state type (first state with nv in (2, 3), first non-empty region)
+                check_state(ctx, kind, nv, nh, na, base.draw(ctx, kind, nv, nh, na),
+                            very_long=(nv in (2, 3) and kind not in base.very_long_done(ctx)))
     # roll pairing of the model vs torch.roll on bit rows (exact)
     import torch
     m = ctx.get_model()
@@ -283,6 +378,6 @@ def replay(ctx, rec):
         print("replay: no stored case; re-running the generated cases")
         return run(ctx)
     print("replay of", case.get("state"), "nv", case.get("nv"), "region", case.get("region"), "encoding", case.get("encoding"))
-    check_state(ctx, case["state"], case["nv"], case["nh"], case.get("na", 0), case["params"], only_region=case.get("region"))
+    check_state(ctx, case["state"], case["nv"], case["nh"], case.get("na", 0), case["params"], only_region=case.get("region"), very_long=True)
     for f in ctx.failures[:5]:
         print("  fails:", f["what"], f["detail"][:200])
